@@ -18,7 +18,7 @@ CLAIMED = {
             "values and unconstrained int64 arguments through the real dispatcher, with the monitors 'error reply => every key/value/expiry unchanged', 'no empty "
             "list/hash/set', 'one type per key with matching payload', dictionary placement invariant, no panic; RENAME/RENAMENX/COPY[REPLACE] on every type incl. "
             "source = destination carrying value and expiry; DEL/UNLINK/EXISTS/TOUCH/TYPE/DBSIZE/KEYS/RANDOMKEY against the set of live keys; SORT; redisGlob against "
-            "Redis' stringmatchlen for all patterns <= 3 (4) characters over the glob alphabet; SORT with BY / LIMIT (all 64-bit offsets and counts) / GET / DESC / STORE against sort.c; thorough tier: 212 argument shapes derived from the real command grammar (every optional argument and oneof alternative of every handler) under the same monitors", "5/C06"),
+            "Redis' stringmatchlen for all patterns <= 3 (4) characters over the glob alphabet; SORT with BY / LIMIT (all 64-bit offsets and counts) / GET / DESC / STORE against sort.c; thorough tier: 212 argument shapes derived from the real command grammar (every optional argument and oneof alternative of every handler) under the same monitors; an UNLINKed key behaves as a missing one for every command template (relational, two servers)", "5/C06"),
     "C07": ("bounded symbolic model checking with the clock as a harness variable: for each of 182 command templates and each type of the key, the reply and resulting "
             "state with the key expired-but-still-stored equal those with the key missing (and read commands never list it); per-command TTL rules (30 commands: in-place "
             "modifiers keep, replacing commands clear); EXPIRE/PEXPIRE/EXPIREAT/PEXPIREAT x NX/XX/GT/LT with a symbolic argument (|n| < 3000 units around now) and exact "
@@ -40,7 +40,7 @@ CLAIMED = {
             "symbolically among RPUSH x1/x2, LPOP, DEL, push to the second key (<= 3 environment commands per path). Checked: a strand parked for good never coexists with "
             "a non-empty list it waits on (no lost wake-up); the returned element was pushed, was taken by nobody else, and pushed = returned + taken + remaining "
             "(exactly-once); the connection is back to normal afterwards. Wait table: three waiters on symbolic subsets of two keys, unblock(name, n) serves the longest "
-            "waiters first and keeps both linked structures consistent. Counterexamples replay natively with a goroutine scheduler driven at the same schedule points; all five blocking commands (BRPOPLPUSH, BLMPOP incl. two keys); thorough tier adds LTRIM / RENAME / LMOVE as competitors", "5/C11"),
+            "waiters first and keeps both linked structures consistent. Counterexamples replay natively with a goroutine scheduler driven at the same schedule points; all five blocking commands (BRPOPLPUSH, BLMPOP incl. two keys); thorough tier adds LTRIM / RENAME / LMOVE as competitors; per-command wake-up invariant: two waiters registered through the real wait table, one waiter signalled per element that arrives in the list (pushes, PUSHX, LINSERT, LMOVE, RENAME, COPY, SORT STORE), oldest first", "5/C11"),
     "C12": ("bounded symbolic model checking of how a block ends: CLIENT UNBLOCK id [TIMEOUT|ERROR] issued while the target is parked, or the (stub) timer firing: null / "
             "UNBLOCKED error reply, reply 1 only for a blocked target (0 for idle or unknown ids, 0 after the fact), capture state / pending flag / mailbox / wait "
             "queues reset, a later push stays in the list, the connection blocks and is served again; blocking commands queued in MULTI return null at EXEC without "
@@ -50,13 +50,13 @@ CLAIMED = {
             "the per-family checks C02-C05/C18, whose harnesses run under vCatch with unconstrained int64 arguments); every length-taking header ($ * % ~ > | ! = and the ;n chunks of streamed strings) with an arbitrary 64-bit number through the public parser entry; the command table (182 templates, thorough: + 212 grammar-derived shapes) x 5 key types with every integer argument an arbitrary 64-bit number under the no-panic / no-client-sized-allocation monitor; commands with non-bulk RESP2/RESP3 arguments; session commands queued and run by EXEC (self-deadlock = a strand that blocks for ever is reported); RESTORE with arbitrary 10..16-byte payloads (the solver produces the checksum) and DUMP/RESTORE round trips; lock order: every nested mutex acquisition of the session commands and two cross-database programs is logged by class, opposite edges and ungated nestings of two database locks are candidates, each confirmed natively by two command loops that stop making progress", "5/C13"),
     "C02": ("bounded symbolic model checking of the real command path (dispatcher, grammar parser, handlers, store) for the string/counter family: "
             "SET option combinations on every key type, SETNX/GETSET/GETDEL/APPEND/STRLEN, MSET/MSETNX all-or-nothing, INCR family for all int64 "
-            "old values and deltas with exact overflow, GETRANGE/SETRANGE for all int64 offsets, against a model of t_string.c; values are symbolic byte strings of <= 2-3 bytes (4-5 in the thorough tier)", "5/C02"),
+            "old values and deltas with exact overflow, GETRANGE/SETRANGE for all int64 offsets, against a model of t_string.c; values are symbolic byte strings of <= 2-3 bytes (4-5 in the thorough tier); INCRBYFLOAT result text / errors on concrete vectors (floating point is outside the solver: sampled, not for all values)", "5/C02"),
     "C03": ("bounded symbolic model checking of every list command through the real dispatcher on lists of symbolic length (<=3 quick, <=5 thorough) "
             "with symbolic one-byte elements and unconstrained int64 index/count/rank arguments, against a Go-slice model of t_list.c plus the "
             "linked-list representation invariant (inductive step within the size bound)", "5/C03"),
     "C04": ("bounded symbolic model checking of the hash commands through the real dispatcher: hashes over a 3-name pool with symbolic membership and "
             "values, HSET/HMSET/HSETNX/HDEL and all read commands against a map model of t_hash.c, HINCRBY for all int64 old values and increments with "
-            "exact overflow, HRANDFIELD result shape for counts -3..3 (rand = round-robin from an arbitrary start) and extreme counts", "5/C04"),
+            "exact overflow, HRANDFIELD result shape for counts -3..3 (rand = round-robin from an arbitrary start) and extreme counts; HINCRBYFLOAT result text / errors on concrete vectors (sampled)", "5/C04"),
     "C05": ("bounded symbolic model checking of the set commands through the real dispatcher: operand sets over a 3-name universe with symbolic membership "
             "(missing / wrong-typed / repeated operands, STORE destination among the operands or of another type), against bit-vector set algebra; SMOVE incl. "
             "source = destination, SREM, SINTERCARD for all int64 limits, SRANDMEMBER shape for counts -3..3 and extreme counts", "5/C05"),
@@ -70,7 +70,7 @@ CLAIMED = {
             "in and out of MULTI), connection tear-down, and the 182 data-command templates run under a monitor that logs every access to per-connection, global and store "
             "memory with the set of mutexes held; two accesses to one field from different connections with disjoint lock sets and at least one write are a candidate pair; "
             "each pair is run concurrently (300 iterations on two connections) in a -race build and only a detector report is a violation; unconfirmed candidates are "
-            "listed in the evidence. Sufficient, not necessary: races the bounded command shapes do not reach, and goroutines of the socket layer and the saver, are outside the claim", "5/C16"),
+            "listed in the evidence. Sufficient, not necessary: races the bounded command shapes do not reach, and goroutines of the socket layer and the saver, are outside the claim; the periodic saver (dss.save) is one more actor of the analysis", "5/C16"),
     "C17": ("inductive argument, each lemma decided on the real code: hashToIndex(h,2n)>>1 == hashToIndex(h,n) for every 64-bit hash and n = 16..256 (growth splits bucket i "
             "into 2i,2i+1); one call of dictScanUnlocked on tables of 16 and 32 buckets (occupancy patterns, tracked bucket, every start position, arbitrary cursor bits above "
             "the mask, COUNT 1..3): progress, nothing between old and new position skipped, nothing invented, and the returned cursor decodes to 2x / half the position after "
@@ -83,7 +83,7 @@ CLAIMED = {
             "effect; gob's empty-slice quirk is modelled): save -> restart -> load restores keys, types, values, element order, deadlines and the version counter for a store "
             "with symbolic values of every type; a further acknowledged change out of 16 (in-place, deleting, flushing, renaming) survives a second save/restart; a save cut "
             "after any number of effects loads as the old or the new snapshot; and (L2 dirty gate) for 182 command templates x 5 key types: state changed => store marked "
-            "dirty. Counterexamples replay natively on real files with real gob", "5/C19"),
+            "dirty. Counterexamples replay natively on real files with real gob; store-set level: three databases (one created after the first save), second-round changes, restart through newDataStoreSet walking the model's directory; a crash at every effect of the save of two databases", "5/C19"),
 }
 
 CATEGORY = {"C16": "other"}
